@@ -217,6 +217,43 @@ def run(ctx):
                "a path through the Emit handler reaches the next instruction without the {Strict, SemiStrict} test "
                "and without Environment::format: an undefined value printed there is silently accepted in the strict "
                "modes", ev.where(entry) if entry is not None else ev.loc)
+        # ---- M8: a failed attribute / item lookup becomes what the mode says for *that container*.  In the GetAttr /
+        # GetItem handlers the None side of the lookup passes handle_undefined(x.is_undefined()) with x the value that
+        # was looked into, before anything is pushed.
+        HU = "minijinja::utils::UndefinedBehavior::handle_undefined"
+        for v, lk in (("GetAttr", "get_attr_fast"), ("GetItem", "get_item_opt")):
+            reg = regs.get(v, set())
+            looks = [c for c in arms.calls_in(ev, reg) if c.name.split("::")[-1] == lk]
+            ok8 = False
+            why8 = "no %s call in the %s handler" % (lk, v)
+            for c in looks:
+                sp = errflow.result_split(ev, c.dest["l"]) if c.dest is not None and "p" not in c.dest else None
+                if not sp or not sp.switches:
+                    why8 = "the result of %s is not matched" % lk
+                    continue
+                recv = {o.key() for o in flow.origins(ev, c.args[0], within=reg)}
+                hus = []
+                for h in arms.calls_in(ev, reg):
+                    if h.name != HU:
+                        continue
+                    good = False
+                    for o in flow.origins(ev, h.args[1], within=reg):
+                        if o.kind == "call" and o.call.name.endswith("Value::is_undefined"):
+                            if {x.key() for x in flow.origins(ev, o.call.args[0], within=reg)} & recv:
+                                good = True
+                    if good:
+                        hus.append(h.bb)
+                pushes = {p_.bb for p_ in arms.calls_in(ev, reg) if p_.name == "minijinja::vm::context::Stack::push"}
+                starts = set()
+                for (sb, none_t, some_t, other, adt) in sp.switches:
+                    starts |= set(none_t or {other})
+                exits = {t for b in reg for t in ev.succ[b] if t not in reg}
+                ok8 = bool(hus) and bool(starts) and all(cfg.paths_must_pass(ev, st_, hus, pushes | exits) for st_ in starts)
+                why8 = "handle_undefined(container.is_undefined()) sites %s" % len(hus)
+            ctx.ob("C12.M8.failed-lookup-asks-the-mode-about-the-container", tag + "eval_impl|" + v, ok8,
+                   "in the %s handler a failed lookup must pass handle_undefined(x.is_undefined()) for the value x that was "
+                   "looked into before pushing a result (%s): otherwise `undefined.attr` is silently undefined in Lenient "
+                   "/ strict modes, or the wrong operand decides" % (v, why8), ev.loc)
         # ---- M3
         n3 = 0
         for f in prog.fns.values():
